@@ -22,8 +22,9 @@ pub enum RunEnd {
     Ok { cycle_count: usize, rules_fired: usize, rules_evaluated: usize },
     Err(String),
     Panic(pan::PanicInfo),
-    /// the harness's logical-step bound tripped (more callbacks than max_cycles × #rules)
-    Runaway,
+    /// the harness's logical-step bound tripped (more callbacks than max_cycles × #rules, or
+    /// more passes than max_cycles + 1)
+    Runaway(&'static str),
 }
 
 #[derive(Clone, Debug)]
@@ -41,6 +42,11 @@ struct RunawayMarker;
 
 /// Parse `text`, load the rules in source order, run `execute_with_callback` once.
 pub fn run_forward(text: &str, n_rules_expected: usize, store: &Store, max_cycles: usize) -> Run {
+    run_forward_cfg(text, n_rules_expected, store, max_cycles, &[])
+}
+
+/// As `run_forward`, with some rules disabled through `KnowledgeBase::set_rule_enabled`.
+pub fn run_forward_cfg(text: &str, n_rules_expected: usize, store: &Store, max_cycles: usize, disabled: &[String]) -> Run {
     let mut run = Run {
         parse_error: None,
         parsed_rules: 0,
@@ -72,6 +78,9 @@ pub fn run_forward(text: &str, n_rules_expected: usize, store: &Store, max_cycle
             return run;
         }
     }
+    for d in disabled {
+        let _ = kb.set_rule_enabled(d, false);
+    }
     let cfg = EngineConfig {
         max_cycles,
         timeout: None,
@@ -83,29 +92,41 @@ pub fn run_forward(text: &str, n_rules_expected: usize, store: &Store, max_cycle
     let _ = verif_hooks::take_events();
     let bound = max_cycles.saturating_mul(n_rules_expected.max(1)) + 1;
     let mut firings: Vec<Firing> = Vec::new();
-    let mut passes = 0usize;
+    // passes are counted by an observer on the H2 markers; it also enforces the logical step
+    // bound "no more than max_cycles + 1 passes" by unwinding out of a runaway loop
+    let passes = std::rc::Rc::new(std::cell::Cell::new(0usize));
+    let runaway = std::rc::Rc::new(std::cell::Cell::new(""));
+    {
+        let passes = passes.clone();
+        let runaway = runaway.clone();
+        let pass_bound = max_cycles + 1;
+        verif_hooks::set_event_observer(Some(Box::new(move |ev| {
+            let Event::ForwardPass { .. } = ev;
+            passes.set(passes.get() + 1);
+            if passes.get() > pass_bound {
+                runaway.set("more passes than max_cycles + 1");
+                std::panic::panic_any(RunawayMarker);
+            }
+        })));
+    }
     let res = pan::catch_frames(|| {
         engine.execute_with_callback(&facts, |name, f| {
-            for ev in verif_hooks::take_events() {
-                let Event::ForwardPass { .. } = ev;
-                passes += 1;
-            }
             let after = Store::from_engine_map(&f.get_all_facts());
+            let p = passes.get();
             firings.push(Firing {
                 rule: name.to_string(),
-                pass: if passes > 0 { Some(passes - 1) } else { None },
+                pass: if p > 0 { Some(p - 1) } else { None },
                 after,
             });
             if firings.len() > bound {
+                runaway.set("more callbacks than max_cycles x #rules");
                 std::panic::panic_any(RunawayMarker);
             }
         })
     });
-    for ev in verif_hooks::take_events() {
-        let Event::ForwardPass { .. } = ev;
-        passes += 1;
-    }
-    run.passes = passes;
+    verif_hooks::set_event_observer(None);
+    let _ = verif_hooks::take_events();
+    run.passes = passes.get();
     run.end = match res {
         Ok(Ok(r)) => RunEnd::Ok {
             cycle_count: r.cycle_count,
@@ -114,8 +135,8 @@ pub fn run_forward(text: &str, n_rules_expected: usize, store: &Store, max_cycle
         },
         Ok(Err(e)) => RunEnd::Err(format!("{}", e)),
         Err(p) => {
-            if firings.len() > bound {
-                RunEnd::Runaway
+            if !runaway.get().is_empty() {
+                RunEnd::Runaway(runaway.get())
             } else {
                 RunEnd::Panic(p)
             }
